@@ -8,7 +8,13 @@
      shared/validators.py   AssociationValidator, PropertyGroupValidator, ShapeValidator  (.validate; the other six are PyLite output)
      ui_json/validation.py  InputValidation.{validate, validate_data}                (state: the validations dict)
    The pre-repair behaviour is kept as *_old definitions: the refutation theorems about them document what the
-   repairs changed and show that the statelessness statements discriminate. *)
+   repairs changed and show that the statelessness statements discriminate.
+
+   STATE IS EXPLICIT in all three models: a [pool] carries `_errors` (p_errs), every pool_enforce* takes the pool left
+   by the previous call and returns the next one (pool_run threads it through a history); a [param] carries the stored
+   value and its pool; iv_validate_data* takes the rule table `self.validations` and returns the table it leaves behind
+   (iv_run threads it).  The repaired pool_enforce starts from [] because the repaired Python does (`self._errors = []`),
+   not because the model has no state: C15_pool_stateless_any_state quantifies over ARBITRARY left-over error lists. *)
 From Coq Require Import String.
 From GV Require Import Prelude.Base Model.PyVal.
 From GVgen Require Import PyLite_SharedUtils PyLite_UiUtils PyLite_Validators.
@@ -169,49 +175,54 @@ Definition iv_validate (W : world) (o : iv_opts) (name value rules : pv) : res p
 
 (* InputValidation.validate_data(data): `pop_one_of` = true reproduces the pre-repair code, which removed the rule from
    the dict shared with self.validations.  Returns the validations afterwards and the verdict. *)
+(* one turn of the loop `for param, validations in local_validations.items()`; state = (self.validations, one_of_validations) *)
+Definition iv_step (pop_one_of : bool) (W : world) (o : iv_opts) (data : pv) (st : pv * pv) (kv : pv * pv) : res (pv * pv) :=
+  let '(vals, one_of) := st in
+  let '(param, rules) := kv in
+  present <- in_keys param data ;;
+  if negb present then
+    req <- contains (PStr "required") rules ;;
+    if req && negb (ignore_requirements o) then Raise (Validation VRequired) else Ok st
+  else
+    has_one <- contains (PStr "one_of") rules ;;
+    '(vals, one_of, rules) <-
+       (if has_one then
+          grp <- getitem rules (PStr "one_of") ;;
+          rules' <- delitem rules (PStr "one_of") ;;
+          dv <- getitem data param ;;
+          let entry := PDict [(param, PBool (negb (is_none dv)))] in
+          cur <- dict_get one_of grp PNone ;;
+          upd <- (if is_none cur then Ok entry else dict_update cur entry) ;;
+          one_of' <- setitem one_of grp upd ;;
+          vals' <- (if pop_one_of then setitem vals param rules' else Ok vals) ;;
+          Ok (vals', one_of', rules')
+        else Ok (vals, one_of, rules)) ;;
+    has_assoc <- contains (PStr "association") rules ;;
+    use_assoc <- (if has_assoc then a <- getitem rules (PStr "association") ;; contains a data else Ok false) ;;
+    _ <- (if use_assoc then
+            a <- getitem rules (PStr "association") ;;
+            parent <- getitem data a ;;
+            valid <- setitem rules (PStr "association") parent ;;
+            dv <- getitem data param ;;
+            iv_validate W o param dv valid
+          else
+            dv <- dict_get data param PNone ;;
+            iv_validate W o param dv rules) ;;
+    Ok (vals, one_of).
+
+(* `for name, val in one_of_validations.items(): self.validate(name, val, {"one_of": None})` *)
+Definition iv_groups_check (W : world) (o : iv_opts) (groups : list (pv * pv)) : res pv :=
+  _ <- fold_res (fun (_ : unit) gv => _ <- iv_validate W o (fst gv) (snd gv) (PDict [(PStr "one_of", PNone)]) ;; Ok tt) groups tt ;;
+  Ok PNone.
+
 Definition iv_validate_data_gen (pop_one_of : bool) (W : world) (o : iv_opts) (validations data : pv) : pv * res pv :=
   match validations with
   | PDict vd =>
-      let step (st : pv * pv) (kv : pv * pv) : res (pv * pv) :=
-        let '(vals, one_of) := st in
-        let '(param, rules) := kv in
-        present <- in_keys param data ;;
-        if negb present then
-          req <- contains (PStr "required") rules ;;
-          if req && negb (ignore_requirements o) then Raise (Validation VRequired) else Ok st
-        else
-          has_one <- contains (PStr "one_of") rules ;;
-          '(vals, one_of, rules) <-
-             (if has_one then
-                grp <- getitem rules (PStr "one_of") ;;
-                rules' <- delitem rules (PStr "one_of") ;;
-                dv <- getitem data param ;;
-                let entry := PDict [(param, PBool (negb (is_none dv)))] in
-                cur <- dict_get one_of grp PNone ;;
-                upd <- (if is_none cur then Ok entry else dict_update cur entry) ;;
-                one_of' <- setitem one_of grp upd ;;
-                vals' <- (if pop_one_of then setitem vals param rules' else Ok vals) ;;
-                Ok (vals', one_of', rules')
-              else Ok (vals, one_of, rules)) ;;
-          has_assoc <- contains (PStr "association") rules ;;
-          use_assoc <- (if has_assoc then a <- getitem rules (PStr "association") ;; contains a data else Ok false) ;;
-          _ <- (if use_assoc then
-                  a <- getitem rules (PStr "association") ;;
-                  parent <- getitem data a ;;
-                  valid <- setitem rules (PStr "association") parent ;;
-                  dv <- getitem data param ;;
-                  iv_validate W o param dv valid
-                else
-                  dv <- dict_get data param PNone ;;
-                  iv_validate W o param dv rules) ;;
-          Ok (vals, one_of)
-      in
-      match fold_res step vd (validations, PDict []) with
+      match fold_res (iv_step pop_one_of W o data) vd (validations, PDict []) with
       | Raise e => (validations, Raise e)        (* old code only: pops made before a raise inside the loop are not tracked *)
       | Ok (vals, one_of) =>
           match one_of with
-          | PDict groups =>
-              (vals, _ <- fold_res (fun (_ : unit) gv => _ <- iv_validate W o (fst gv) (snd gv) (PDict [(PStr "one_of", PNone)]) ;; Ok tt) groups tt ;; Ok PNone)
+          | PDict groups => (vals, iv_groups_check W o groups)
           | _ => (vals, Raise TypeError)
           end
       end
@@ -251,3 +262,16 @@ Definition verdict_eqb (a : res pv) (b : option exn) : bool :=
   | _, _ => false
   end.
 Definition verdicts_eqb (a : list (res pv)) (b : list (option exn)) : bool := list_eqb2 verdict_eqb a b.
+
+(* ------------------------------------------------------------------ the at-least-one rule, declaratively (C15_one_of_accept_iff) *)
+(* a rule table in which parameter p only says  {"one_of": g} *)
+Definition one_of_table (spec : list (string * string)) : list (pv * pv) :=
+  map (fun pg => (PStr (fst pg), PDict [(PStr "one_of", PStr (snd pg))])) spec.
+(* data[p] is not None *)
+Definition provided (data : list (pv * pv)) (p : string) : bool :=
+  match dict_find (PStr p) data with Some PNone | None => false | Some _ => true end.
+(* some member of group g is provided *)
+Definition group_satisfied (spec : list (string * string)) (data : list (pv * pv)) (g : string) : bool :=
+  existsb (fun pg => String.eqb (snd pg) g && provided data (fst pg)) spec.
+Definition one_of_ok (spec : list (string * string)) (data : list (pv * pv)) : bool :=
+  forallb (fun pg => group_satisfied spec data (snd pg)) spec.
